@@ -69,6 +69,14 @@ func corpus(r *rand.Rand) []string {
 	for i := 0; i < 40; i++ {
 		qs = append(qs, qt.Print(qt.RandomTree(r, leaves, 1+r.Intn(4)), qt.Style{}))
 	}
+	// long and deep queries: hundreds of levels of recursion in flight in every goroutine at once
+	qs = append(qs,
+		"f0:v0"+strings.Repeat(" AND f1:v1", 300),
+		"a:1"+strings.Repeat(" OR b:[1 TO 2]", 250),
+		strings.Repeat("NOT (", 200)+"a:b"+strings.Repeat(")", 200),
+		strings.Repeat("a:b AND (c:d OR (", 120)+"e:f"+strings.Repeat("))", 120),
+		"x"+strings.Repeat(" y:z*", 400),
+	)
 	return qs
 }
 
